@@ -11,7 +11,23 @@ RLOOPS = ["secp256k1_rangeproof_rewind_inner.2:5", "secp256k1_rangeproof_rewind_
 FUNCS = ["secp256k1_rangeproof_verify_impl", "secp256k1_rangeproof_getheader_impl", "secp256k1_rangeproof_pub_expand",
          "secp256k1_pedersen_commitment_load", "secp256k1_generator_load", "secp256k1_rangeproof_serialize_point"]
 CLOSED = "full unwinding to the code-enforced constants (32 rings, 4 per ring, 128 ring members, exp <= 18); unwinding assertions prove the bounds"
+VLOOPS_B = ["secp256k1_rangeproof_verify_impl.0:3", "secp256k1_rangeproof_verify_impl.1:3", "secp256k1_rangeproof_verify_impl.2:3",
+            "secp256k1_rangeproof_verify_impl.3:9", "secp256k1_rangeproof_pub_expand.0:20", "secp256k1_rangeproof_pub_expand.1:5",
+            "secp256k1_rangeproof_pub_expand.2:3"]
+RLOOPS_B = ["secp256k1_rangeproof_rewind_inner.2:33", "secp256k1_rangeproof_rewind_inner.3:5", "secp256k1_rangeproof_rewind_inner.4:3",
+            "secp256k1_rangeproof_rewind_inner.5:129", "secp256k1_rangeproof_rewind_inner.6:33"]   # no loop contract: .2 is the message copy loop
+MSGLOOP = {"secp256k1_rangeproof_rewind_inner": {"for (b = 0; b < 32 && offset < *mlen; b++)": {
+          "assigns": "b, offset, __CPROVER_object_whole(m)", "invariants": "0 <= b && b <= 32 && offset <= *mlen", "decreases": "32 - b"}}}
 UNITS = [
+    U("C07.rangeproof_verify_m4", ["C07", "C10"], "harness/C07/rangeproof_api.c", "h_verify", defs=["MAXMAN=4"],
+      assumed=ORACLES, functions=["secp256k1_rangeproof_verify"] + FUNCS,
+      timeout=900, min_obl=300, unwind=34, unwindset=VLOOPS_B, bounded="mantissa <= 4 (2 rings, 8 ring members)",
+      note="bounded quick stand-in of C07.rangeproof_verify"),
+    U("C07.rangeproof_rewind_m3", ["C07", "C09"], "harness/C07/rangeproof_api.c", "h_rewind", defs=["MAXMAN=3", "RP_REWIND_UNIT"],
+      replace=["secp256k1_rangeproof_genrand", "secp256k1_rangeproof_ch32xor"], assumed=ORACLES + RW_ORACLES,
+      functions=["secp256k1_rangeproof_rewind", "secp256k1_rangeproof_rewind_inner"] + FUNCS,
+      timeout=1500, min_obl=300, unwind=34, unwindset=VLOOPS_B + RLOOPS_B, bounded="mantissa <= 3 (2 rings, 6 ring members)", mem_gb=16,
+      note="bounded quick stand-in of C07.rangeproof_rewind; message copy loop fully unwound (32 bytes per ring member), message buffer of every length <= 5000"),
     U("C07.rangeproof_info", ["C07", "C10"], "harness/C07/rangeproof_api.c", "h_info",
       functions=["secp256k1_rangeproof_info", "secp256k1_rangeproof_getheader_impl"], timeout=300, min_obl=50, unwind=20, replay=True,
       closed_by="full unwinding (exp <= 18, 8 length bytes)", note="all byte strings, plen <= 6000, every NULL/non-NULL combination"),
